@@ -615,6 +615,7 @@ def gen_injection_cases(rng, tier):
         ]
     cases = []
     for hist, j, user, created0 in hists:
+        run_history(hist, user, created0)          # warm-up: first executions fill the library's caches
         dry = run_history(hist, user, created0)
         n = dry["nlines"][j]
         off = rng.randrange(stride)
@@ -641,11 +642,24 @@ def conc_values(name):
     raise AssertionError(name)
 
 
+CUR_SCHED = [None]
+
+
 def lock_of(pos):
     pc = pc_of(pos)
     if pc == 1:
         lk = MC.__dict__.get("__instance_lock__")
-        return (lambda ident: lk.locked()) if lk is not None else None
+        if lk is None:
+            return None
+
+        def held_by_other(ident):
+            # a plain Lock does not tell its owner: it is held by another thread iff it is
+            # locked and some other thread is known to be between the two `with` lines of __new__
+            if not lk.locked():
+                return False
+            return any(w.ident != ident and w.state != "finished" and w.pos[0] == "__new__"
+                       and 2 <= pc_of(w.pos) <= 8 for w in CUR_SCHED[0].workers)
+        return held_by_other
     if pc in (10, 17):
         inst = instance()
         lk = getattr(inst, "lock", None)
@@ -697,6 +711,7 @@ def run_schedule(names, user, created0, choose):
             LOG.add("use")
 
     S = c20_sched.Scheduler([fn(i) for i in range(len(names))], targets(), lock_of, call_hook=call_hook)
+    CUR_SCHED[0] = S
     sched, seen, completed, note = [], [], True, None
     try:
         S.start()
@@ -795,9 +810,11 @@ def enumerate_schedules(names, user, created0, max_pre, rng, budget, stride2=1):
             pairs = pairs[off::stride2]
         plans += [dict(p) for p in pairs]
     t0 = time.time()
+    done = 0
     for pl in plans:
         if time.time() - t0 > budget:
             break
+        done += 1
         r = run_schedule(names, user, created0, preempt_chooser(pl, nt))
         k = tuple(r["sched"])
         if k in seen_keys:
@@ -805,7 +822,7 @@ def enumerate_schedules(names, user, created0, max_pre, rng, budget, stride2=1):
         seen_keys.add(k)
         r["plan"] = sorted(pl.items())
         runs.append(r)
-    return runs, len(plans)
+    return runs, (len(plans), done)
 
 
 # ------------------------------------------------------------------ check
@@ -981,19 +998,20 @@ def main(tier, replay=None):
                 (["flat2", "tiny"], True, False, 1, 1, 10), (["boom", "flat"], False, False, 1, 1, 10)]
     else:
         conf = [(["flat", "flat"], False, False, 2, 1, 150), (["nested", "flat"], False, True, 2, 1, 240),
-                (["inst", "flat2"], False, False, 2, 4, 150), (["flat2", "tiny"], True, False, 2, 1, 60),
+                (["inst", "flat2"], False, False, 2, 2, 200), (["flat2", "tiny"], True, False, 2, 1, 60),
                 (["boom", "flat"], False, False, 2, 1, 90), (["boom", "nested"], False, True, 1, 1, 30),
-                (["flat", "flat", "flat"], False, False, 2, 6, 200), (["tiny", "nested", "flat"], False, True, 2, 40, 100),
-                (["flat", "tiny", "boom"], True, False, 1, 1, 30)]
+                (["flat", "flat", "flat"], False, False, 2, 2, 300), (["tiny", "nested", "flat"], False, True, 2, 12, 200),
+                (["flat", "tiny", "boom"], True, False, 2, 4, 60)]
     enum_stats = []
     for names, user, created0, max_pre, stride2, budget in conf:
         rs, nplans = enumerate_schedules(names, user, created0, max_pre, rng, budget, stride2)
         runs += rs
         enum_stats.append({"threads": names, "user_entry": user, "singleton_exists": created0,
-                           "max_preemptions": max_pre, "pair_stride": stride2, "plans": nplans,
+                           "max_preemptions": max_pre, "pair_stride": stride2, "plans": nplans[0],
+                           "plans_run_within_time_budget": nplans[1],
                            "distinct_schedules": len(rs)})
     n_enum = len(runs)
-    for i in range(150 if quick else 1500):
+    for i in range(150 if quick else 2500):
         names = rng.choice([["flat", "flat"], ["nested", "flat2"], ["inst", "flat"], ["flat", "tiny", "nested"],
                             ["boom", "flat2"], ["flat2", "flat", "flat"]])
         if quick and len(names) > 2:
@@ -1036,6 +1054,7 @@ def main(tier, replay=None):
                       if any(t[0] in (1, 2, 3, 4, 5) for t in c["trace"])}) + \
         len({(tuple(r["names"]), r["user"], r["created0"], tuple(r["sched"])) for r in runs})
     blocked_steps = sum(1 for r in runs for s in r["sched"] if s[1])
+    reached = sorted({c // 4 for r in runs for v in r["seen"] for c in v[4:]})
     extra = {
         "evaluations": len(seq) + len(runs),
         "distinct_nontrivial": nontrivial,
@@ -1056,7 +1075,8 @@ def main(tier, replay=None):
             "concurrent": {"runs": len(runs), "enumerated": n_enum, "random": len(runs) - n_enum,
                            "steps_compared": sum(len(r["sched"]) for r in runs), "blocked_attempts": blocked_steps,
                            "disagreements": len(cbad), "enumeration": enum_stats,
-                           "incomplete_runs": sum(1 for r in runs if not r["completed"])},
+                           "incomplete_runs": sum(1 for r in runs if not r["completed"]),
+                           "thread_positions_reached": reached},
             "line_map": {f"{k[0]}:{k[1]}": v[1] for k, v in sorted(LINE_MAP.items())},
         },
         "timings": timings,
